@@ -283,7 +283,7 @@ func init() {
 		Setup: func(tier string, seed uint64) int {
 			c01.exh = gen.Exhaustive()
 			c01.seed, c01.tier = seed, tier
-			c01.n = len(c01.exh) + map[string]int{"quick": 40000, "thorough": 1500000}[tier]
+			c01.n = len(c01.exh) + map[string]int{"quick": 40000, "thorough": 6000000}[tier]
 			return c01.n
 		},
 		Run: c01run,
